@@ -53,6 +53,9 @@ MUTANTS = [
     ("vt.contracts.einsum_eq", "get_einsum_eq", "cotengra/core.py", "            for i, ix in enumerate(unique(itertools.chain(l_inds, r_inds)))\n        }", "            for i, ix in enumerate(unique(itertools.chain(l_inds, r_inds)))\n            if not ix.isascii()\n        }"),
     ("vt.contracts.einsum_eq", "get_einsum_eq", "cotengra/core.py", "enumerate(unique(itertools.chain(l_inds, r_inds)))", "enumerate(unique(l_inds))"),
     ("vt.contracts.einsum_eq", "get_einsum_eq", "cotengra/core.py", "ord(ix): get_symbol(i)", "ord(ix): get_symbol(i % 52)"),
+    ("vt.contracts.hyper_score", "_search", "cotengra/hyperoptimizers/hyper.py", 'if trial["score"] < self.best["score"]:', 'if trial["score"] > self.best["score"]:'),
+    ("vt.contracts.hyper_score", "_get_and_report", "cotengra/hyperoptimizers/hyper.py", "                    del self._futures[i]\n", "                    del self._futures[0]\n"),
+    ("vt.contracts.hyper_score", "_get_and_report", "cotengra/hyperoptimizers/hyper.py", "                    self._maybe_report_result(setting, trial)\n                    return trial", "                    return trial"),
     ("vt.contracts.tensordot_recipe", "get_tensordot_axes", "cotengra/core.py", "            if j != -1:\n                l_axes.append(i)", "            if j > 0:\n                l_axes.append(i)"),
     ("vt.contracts.tensordot_recipe", "get_tensordot_axes", "cotengra/core.py", "                l_axes.append(i)\n                r_axes.append(j)", "                l_axes.append(j)\n                r_axes.append(j)"),
     ("vt.contracts.tensordot_recipe", "get_tensordot_perm", "cotengra/core.py", "return tuple(map(td_inds.find, p_inds))", "return tuple(map(p_inds.find, td_inds))"),
